@@ -379,6 +379,29 @@ func main() {
 				muts: []mutation{{"duplicate-msgtype", "last message shares the msgtype of the first"}}})
 		}
 	}
+	// a message block that occurs twice — same name, same msgtype, the copy with one member fewer — adjacent to the
+	// original or at the other end of the list: that is a duplicate message type too
+	for bi, b := range bases {
+		for k, far := range []bool{false, true} {
+			d, tm, to := clone(b)
+			if len(d.Messages) < 3 {
+				continue
+			}
+			src := d.Messages[len(d.Messages)/2]
+			cp := &xContainer{Name: src.Name, MsgCat: src.MsgCat, MsgType: src.MsgType, Kids: append([]*xMember(nil), src.Kids...)}
+			if len(cp.Kids) > 1 {
+				cp.Kids = cp.Kids[:len(cp.Kids)-1]
+			}
+			if far {
+				d.Messages = append(d.Messages, cp)
+			} else {
+				at := len(d.Messages)/2 + 1
+				d.Messages = append(d.Messages[:at], append([]*xContainer{cp}, d.Messages[at:]...)...)
+			}
+			cases = append(cases, &caseT{id: fmt.Sprintf("reject-%d-repeated-message-%d", bi, k), doc: d, types: tm, typeOrder: to, outDir: "./rej", reject: true,
+				muts: []mutation{{"duplicate-msgtype(repeated message block)", fmt.Sprintf("message %s (msgtype %s) occurs twice, the second time without its last member (at the end of the list: %v)", src.Name, src.MsgType, far)}}})
+		}
+	}
 	// a repeating group added at nesting depth 3 (inside a group that is itself inside a group): the shipped
 	// reference schema only goes to depth 2
 	for bi, b := range bases {
